@@ -7,7 +7,10 @@ PRECS = {"d": "-DPREC_D", "s": "-DPREC_S", "c": "-DPREC_C", "z": "-DPREC_Z"}
 
 def build(ctx, prec="d", flavor="hooks"):
     lib, fl = ctx.build_lib(flavor)
-    return ctx.cc_harness("drv_%s_%s" % (prec, flavor), ["drv_harness.c", "sp_ienv_verif.c"], lib, fl + [PRECS[prec]])
+    extra = []
+    if flavor == "vendor":      # BLAS-3 (dtrsm/dgemm in ?gstrs) is not in /repo/CBLAS: use the system OpenBLAS as the pinned build does
+        extra = ["/usr/lib/x86_64-linux-gnu/libopenblas.so"]
+    return ctx.cc_harness("drv_%s_%s" % (prec, flavor), ["drv_harness.c", "sp_ienv_verif.c"], lib, fl + [PRECS[prec]], extra_link=extra)
 
 
 def hexf(x):
@@ -90,3 +93,22 @@ def run_batch(exe, cases, timeout=600, env=None):
 
 def unhex(lst):
     return [float.fromhex(x) for x in lst]
+
+
+def run_grouped(exe, cases, par=4, chunk=25, timeout=900):
+    """run cases in parallel processes; cases sharing one process always share the tuning parameters (ienv):
+    p?gstrf_bmod2D caches sp_ienv values in function statics, so changing them inside a process is not a supported use"""
+    from concurrent.futures import ThreadPoolExecutor
+    groups = {}
+    for c in cases:
+        groups.setdefault(tuple(c.get("ienv") or ()), []).append(c)
+    chunks = []
+    for g in groups.values():
+        for i in range(0, len(g), chunk):
+            chunks.append(g[i:i + chunk])
+    out = {}
+    with ThreadPoolExecutor(max(1, par)) as ex:
+        for ch, rr in zip(chunks, ex.map(lambda ch: run_batch(exe, ch, timeout=timeout), chunks)):
+            for c, r in zip(ch, rr):
+                out[c.get("id", 0)] = r
+    return [out[c.get("id", 0)] for c in cases]
